@@ -408,27 +408,27 @@ class EquationSolver(object):
             Logger('Had evaluation errors')
             raise ValueError(last_error)
         Logger('Number of iterations: {0}'.format(num_tries), priority=3)
-        # Then: append values to the time series
-        varlist = [x[0] for x in self.Parser.Endogenous] + [x[0] for x in self.Parser.Lagged]
-        for var in varlist:
-            assert (len(self.TimeSeries[var]) == step)
-            self.TimeSeries[var].append(initial[var])
-        # Finally: augment with decorative variables
+        # Finally: compute the decorative variables.
         # This is complicated as decorative variables may depend upon other decorative variables
         # Create a holding variable that lists the equations, and keep iterating through the list
+        # Nothing is appended to the time series until every value of the period is known, so
+        # that a failure leaves all series with the same length.
         vars_to_compute = []
         for var, eqn in self.Parser.Decoration:
             vars_to_compute.append((var, eqn))
+        computed = []
         while len(vars_to_compute) > 0:
             failed = []
             for var, eqn in vars_to_compute:
-                assert (len(self.TimeSeries[var]) == step)
                 try:
                     val = eval(eqn, globals(), initial)
-                    initial[var] = val
-                    self.TimeSeries[var].append(val)
                 except NameError:
                     failed.append((var, eqn))
+                    continue
+                except (ZeroDivisionError, ValueError, OverflowError) as er:
+                    raise ValueError('Error evaluating decorative variable {0} = {1}'.format(var, str(er)))
+                initial[var] = val
+                computed.append(var)
             # If we failed on every single decoration variable, something is wrong.
             if len(failed) == len(vars_to_compute):
                 # NOTE: We should not get here; it means that the decoration variables are
@@ -440,6 +440,15 @@ class EquationSolver(object):
                     Logger(out)
                 raise ValueError('Cannot solve decoration equations!\n'+out)
             vars_to_compute = failed
+        # Then: append values to the time series (refusing anything that is not a finite number)
+        varlist = [x[0] for x in self.Parser.Endogenous] + [x[0] for x in self.Parser.Lagged] + computed
+        for var in varlist:
+            val = initial[var]
+            if isinstance(val, float) and (isnan(val) or isinf(val)):
+                raise ValueError('Value of {0} is not a finite number - step {1}'.format(var, step))
+        for var in varlist:
+            assert (len(self.TimeSeries[var]) == step)
+            self.TimeSeries[var].append(initial[var])
 
     def SolveEquation(self):
         if len(self.VariableList) == 0:
